@@ -21,6 +21,8 @@ class Ty:
             return "tuple[%s]" % ",".join(map(str, self.a))
         if self.k == "dict":
             return "dict%s[%s,%s]" % (o, self.a[0], self.a[1])
+        if self.k == "real" and self.a:
+            return "real:" + self.a[0]
         return self.k
 
     @property
@@ -48,6 +50,10 @@ def parse_ty(s):
     s = s.strip()
     if s in ("int", "bool", "real", "float", "none", "str"):
         return Ty(s)
+    if s.startswith("real:"):
+        # a nominal copy of `real` (e.g. real:reward): same values, but lists of it live in their own heap arrays, so a
+        # list of rewards can never alias a list of coordinates; mixing the two list types is rejected by the front end
+        return Ty("real", (s[5:],))
     m = re.match(r"^(ref|cls)(\??):(.+)$", s)
     if m:
         return Ty(m.group(1), (m.group(3).strip(),), bool(m.group(2)))
@@ -195,6 +201,8 @@ class ClassTable:
             return "tuple[%s]" % ",".join(self.erase(x) for x in t.a)
         if t.k == "dict":
             return "dict[%s,%s]" % (self.erase(t.a[0]), self.erase(t.a[1]))
+        if t.k == "real" and t.a:
+            return "real:" + t.a[0]
         return t.k
 
     def span(self, fdef):
